@@ -133,9 +133,15 @@ class Meter:
             self.cur -= 1
 
 
-def make_log_cold(scheduler, messages, sync0: bool, clock, meter=None):
+def make_log_cold(scheduler, messages, sync0: bool, clock, meter=None, handed: bool = False):
+    """handed: the source has NO scheduler of its own (like reactivex.timer / delay / interval built without one): it
+    schedules its events on the scheduler handed to subscribe(observer, scheduler=...). When none is handed it falls
+    back to a default like the library's time-based sources do - here ImmediateScheduler instead of real timers, so
+    the run stays deterministic: time-0 events are still delivered, a later event cannot be (WouldBlockException),
+    i.e. a dropped subscribe-time scheduler shows up as missing/wrong virtual times."""
     from reactivex import Observable
     from reactivex.disposable import CompositeDisposable, Disposable
+    from reactivex.scheduler import ImmediateScheduler
 
     class LogColdObservable(Observable):
         def __init__(self):
@@ -166,11 +172,12 @@ def make_log_cold(scheduler, messages, sync0: bool, clock, meter=None):
                     return Disposable()
                 return action
 
+            sch = scheduler if not handed else (scheduler_ if scheduler_ is not None else ImmediateScheduler.singleton())
             for (t, is_zero, n) in messages:
                 if sync0 and is_zero:
                     deliver(n)
                 else:
-                    disp.add(scheduler.schedule_relative(t, later(n)))
+                    disp.add(sch.schedule_relative(t, later(n)))
             inside[0] = False
             return Disposable(dispose)
 
@@ -254,8 +261,11 @@ class World:
         from reactivex.notification import OnCompleted, OnError, OnNext
         return [(t, x if k == "raw" else OnNext(x) if k == "N" else OnCompleted() if k == "C" else OnError(x)) for (t, k, x) in msgs]
 
-    def cold(self, msgs, sync0=False, inner=False):
+    def cold(self, msgs, sync0=False, inner=False, handed=False):
         from reactivex.testing.recorded import Recorded
+        if handed:
+            return make_log_cold(self.s, [(self.rel(t), t == 0, n) for t, n in self._notes(msgs)], sync0, self.now,
+                                 self.meter if inner else None, handed=True)
         if self.kind == "test" and not sync0 and not self.own:
             if inner:
                 self.metered = False
@@ -285,7 +295,8 @@ def zero_time_complete(tl) -> bool:
 
 
 def run_scenario(scn: Dict[str, Any], *, outer: str, profile: str, inner_first: bool = True, form: str = "pipe",
-                 salt: int = 0, resub: bool = False, clock: str = "test", own: bool = False) -> Optional[Dict[str, Any]]:
+                 salt: int = 0, resub: bool = False, clock: str = "test", own: bool = False,
+                 handed: bool = False) -> Optional[Dict[str, Any]]:
     """One real run. Returns None when the variant does not apply to the scenario.
     outer: "hot" | "cold" | "sync" - the kind of test source the outer timeline is played from.
     form:  "pipe"; merge(sources...): "factory" = reactivex.merge(...); flat_map family: "const" = the mapper argument is
@@ -302,6 +313,9 @@ def run_scenario(scn: Dict[str, Any], *, outer: str, profile: str, inner_first: 
                       (possibly with inners still queued), the second one is never disposed and must see an allowed
                       observation of the same scenario without dispose.
     clock: "test" (TestScheduler) | "hist" (HistoricalScheduler, datetime clock).
+    handed: the cold / synchronously-emitting inner sources have no scheduler of their own: they run on the scheduler
+           handed down to their subscribe() (the subscriber subscribes with scheduler=<the virtual-time scheduler>, so
+           the operator has to pass it on to every inner subscription); same expectations as the cold flavour.
     own:   use the codec's metered logging sources instead of the library's test sources (then the observation has
            "peak": the largest number of inner subscriptions open at the same moment, at sub-instant resolution)."""
     import reactivex
@@ -327,6 +341,8 @@ def run_scenario(scn: Dict[str, Any], *, outer: str, profile: str, inner_first: 
     w = World(clock, own)
     mapped = op in MAPPED or op in INDEXED
     logged = True       # the inner sources log their subscriptions
+    if handed and (fl == "hot" or form != "pipe"):
+        return None
     if form == "iterable":
         if not (mapped and fl == "cold" and all(zero_time_complete(tl) for tl in tab)):
             return None
@@ -354,7 +370,7 @@ def run_scenario(scn: Dict[str, Any], *, outer: str, profile: str, inner_first: 
             elif fl == "hot":
                 out[i] = w.hot(inner_msgs(i, tl, True), inner=True)
             else:
-                out[i] = w.cold(inner_msgs(i, tl, False), sync0=(fl == "sync"), inner=True)
+                out[i] = w.cold(inner_msgs(i, tl, False), sync0=(fl == "sync"), inner=True, handed=handed)
         return out
 
     inners: Dict[int, Any] = {}
@@ -708,7 +724,9 @@ def variants_for(scn, profiles=("plain",), light=False):
         vs = [dict(outer="cold", profile=prof(0), inner_first=True, form="pipe", salt=s % 7),
               dict(outer="cold", profile=prof(1), inner_first=True, form="factory", salt=s % 5,
                    resub=("seq" if scn["fl"] != "hot" and s % 2 == 0 else False))]
-        return vs[s % 2:][:1] if light else vs
+        if light or scn["fl"] == "hot":
+            return vs[s % 2:][:1] if light else vs
+        return [dict(outer="cold", profile=prof(1), inner_first=True, form="pipe", salt=s % 3, handed=True)] + vs
     kinds = ("sync", "cold") if zero else ("hot", "cold")
     if light:
         kinds = kinds[s % 2:][:1]
@@ -720,6 +738,9 @@ def variants_for(scn, profiles=("plain",), light=False):
         else:
             vs.append(dict(outer=ok, profile=prof(n), inner_first=bool((s + n) % 2), form="pipe", salt=s % 7))
     k = 4 if light else 1
+    if scn["fl"] != "hot" and (not light or s % 2 == 0):
+        # inner sources without a scheduler of their own: they run on the scheduler handed to their subscribe()
+        vs.append(dict(outer=kinds[-1], profile=prof(1), inner_first=bool(s % 2), form="pipe", salt=s % 3, handed=True))
     if scn["fl"] != "sync" and (not light or s % 3 == 2):
         # metered sources: how many inner subscriptions are open at the same moment (sync flavour is always metered)
         vs.append(dict(outer=kinds[-1], profile=prof(2), inner_first=bool(s % 2), form="pipe", salt=s % 3, own=True))
